@@ -227,17 +227,29 @@ type outcome struct {
 	err  error
 }
 
-// OpTimeout bounds one operation (a key object that never returns from Sign/SetIndex is a violation, not a reason to hang).
-var OpTimeout = 90 * time.Second
+// An operation that never returns (e.g. a lock leaked by an earlier refusal) is a violation, not a reason to hang the
+// explorer. The allowance is deliberately far above any legitimate cost, and scales with the work the call has to do:
+// 3 minutes plus 50 ms per traversal round of a forward jump (a real-hash round costs about 4 ms, a symbolic one 2 us),
+// so that a loaded machine cannot turn a slow legitimate call into an alarm.
+func opAllowance(k *xmss.XMSS, op Op) time.Duration {
+	d := 3 * time.Minute
+	if op.Kind == "setindex" {
+		if cur := k.GetIndex(); op.J > cur {
+			d += time.Duration(op.J-cur) * 50 * time.Millisecond
+		}
+	}
+	return d
+}
 
 func apply(k *xmss.XMSS, op Op) outcome {
+	allow := opAllowance(k, op)
 	ch := make(chan outcome, 1)
 	go func() { ch <- applyNow(k, op) }()
 	select {
 	case o := <-ch:
 		return o
-	case <-time.After(OpTimeout):
-		return outcome{kind: "hang:operation did not return within " + OpTimeout.String()}
+	case <-time.After(allow):
+		return outcome{kind: "hang:operation did not return within " + allow.String()}
 	}
 }
 
